@@ -49,6 +49,8 @@ def stub_random():
 
         def randint(self, a, b):
             self.calls.append(('randint', a, b))
+            if b < a:
+                raise ValueError('empty range for randrange() ({}, {}, {})'.format(a, b + 1, b + 1 - a))
             return self._draw(a, b)
 
         def randrange(self, a, b=None, step=1):
